@@ -81,7 +81,7 @@ pcgstrf_bmod2D(
     complex       *TriTmp, *MatvecTmp;
     register int_t ldaTmp;
     register int_t r_ind, r_hi;
-    static   int_t first = 1, maxsuper, rowblk;
+    int_t          maxsuper, rowblk;
     int_t          *lsub, *xlsub_end;
     complex       *lusup;
     int_t          *xlusup;
@@ -92,11 +92,10 @@ pcgstrf_bmod2D(
     double f_time;
 #endif    
     
-    if ( first ) {
-	maxsuper = sp_ienv(3);
-	rowblk   = sp_ienv(4);
-	first = 0;
-    }
+    /* Not cached across calls: tempv[] is sized from the current values
+       (pxgstrf_WorkInit), which may differ from one factorization to the next. */
+    maxsuper = sp_ienv(3);
+    rowblk   = sp_ienv(4);
     ldaTmp = maxsuper + rowblk;
 
     lsub      = Glu->lsub;
